@@ -53,8 +53,9 @@ type mutator struct {
 	edits []string
 	other func() []byte // another seed, for splicing
 
-	deferred    []uint64 // seeds of cross-reference row edits, applied behind the repair
-	forceRepair bool     // an edit moved objects on purpose: the offsets are recomputed
+	deferred     []uint64 // seeds of cross-reference row edits, applied behind the repair
+	forceRepair  bool     // an edit moved objects on purpose: the offsets are recomputed
+	appendRepair bool     // an edit appended objects: only a fresh section can list them
 }
 
 func kw(t syntax.Token, s string) bool { return t.Kind == syntax.TokKeyword && string(t.Bytes) == s }
@@ -338,7 +339,7 @@ func (m *mutator) edit() bool {
 	if len(ts) == 0 {
 		return false
 	}
-	kind := []int{0, 0, 0, 1, 1, 1, 2, 2, 2, 2, 2, 2, 3, 4, 5, 6, 7, 8, 8, 9, 9, 10, 10, 11, 12, 12, 13, 13, 14, 15, 15}[m.pick("edit", 31)]
+	kind := []int{0, 0, 0, 1, 1, 1, 2, 2, 2, 2, 2, 2, 3, 4, 5, 6, 7, 8, 8, 9, 9, 10, 10, 11, 12, 12, 13, 13, 14, 15, 15, 16, 16}[m.pick("edit", 33)]
 	switch kind {
 	case 0: // integer operand -> hostile constant
 		var idx []int
@@ -525,6 +526,14 @@ func (m *mutator) edit() bool {
 		m.data = out
 		m.edits = append(m.edits, label)
 		m.forceRepair = true
+	case 16: // a hostile interactive form and widget annotations on the pages
+		out, label := addAcroForm(m.data, m.rnd)
+		if out == nil {
+			return false
+		}
+		m.data = out
+		m.edits = append(m.edits, label)
+		m.forceRepair, m.appendRepair = true, true
 	case 14: // junk before the header
 		out, label := addPreamble(m.data, m.rnd)
 		if out == nil {
@@ -684,6 +693,9 @@ func mutate(t *rapid.T, data []byte, other func() []byte) (out []byte, edits []s
 		kind := rapid.IntRange(0, 3).Draw(t, "repairkind")
 		if m.forceRepair && kind != 0 {
 			kind = 1 // object streams live in files with a cross-reference stream
+		}
+		if m.appendRepair {
+			kind = 2 // a fresh section which continues the old chain
 		}
 		var fixed []byte
 		func() {
